@@ -64,6 +64,11 @@ class Guard:
                         return None
                 return d
             return d
+        if isinstance(test, ast.Name):
+            var = test.id
+            if ('true' if not truth else 'false', var) in d:
+                return None
+            return d | {('true' if truth else 'false', var)}
         if isinstance(test, ast.Call) and dotted(test.func) == 'isinstance' and len(test.args) == 2 and isinstance(test.args[0], ast.Name):
             var = test.args[0].id
             ks = _classes(test.args[1])
@@ -139,26 +144,72 @@ class Guard:
                 return d_after | {(f[0], var) + tuple(f[2:]) for f in d_before if f[1] == src}
         return d_after
 
-    def _transfer(self, e: Edge, S):
+    def _transfer_one(self, e: Edge, d):
         n = self.cfg.nodes[e.src]
+        if e.kind == 'exc':
+            return d
+        if n.kind == 'test':
+            if e.kind in ('T', 'F'):
+                return self._assume(d, n.ast, e.kind == 'T')
+            return d
+        if n.kind == 'for':
+            return self._effect(d, n) if e.kind == 'iter' else d
+        return self._effect_src_facts(d, self._effect(d, n), n)
+
+    def _transfer(self, e: Edge, S):
         out = set()
         for d in S:
-            nd = d
-            if e.kind == 'exc':
-                pass
-            elif n.kind == 'test':
-                if e.kind in ('T', 'F'):
-                    nd = self._assume(d, n.ast, e.kind == 'T')
-            elif n.kind == 'for':
-                if e.kind == 'iter':
-                    nd = self._effect(d, n)
-            else:
-                nd = self._effect_src_facts(d, self._effect(d, n), n)
+            nd = self._transfer_one(e, d)
             if nd is not None:
                 out.add(nd)
         if not out:
             return None
         return frozenset(out)
+
+    def feasible_path(self, start_edges, targets, *, avoid=(), edge_ok=None, limit=20000):
+        """Path-sensitive reachability: is there a path from one of `start_edges` to a node in
+        `targets`, not entering `avoid`, along which the accumulated facts never contradict a branch
+        taken?  Search over (node, disjunct) pairs.  Returns a node-id path or None."""
+        from collections import deque
+
+        targets, avoid = set(targets), set(avoid)
+        prev = {}
+        dq = deque()
+        for e in start_edges:
+            if edge_ok and not edge_ok(e):
+                continue
+            for d in self.at(e.src) or [frozenset()]:
+                nd = self._transfer_one(e, d)
+                if nd is None:
+                    continue
+                if e.dst in avoid and e.dst not in targets:
+                    continue
+                k = (e.dst, nd)
+                if k not in prev:
+                    prev[k] = None
+                    dq.append(k)
+        while dq and len(prev) < limit:
+            k = dq.popleft()
+            n, d = k
+            if n in targets:
+                path = []
+                while k is not None:
+                    path.append(k[0])
+                    k = prev[k]
+                return list(reversed(path))
+            for e in self.cfg.succ[n]:
+                if edge_ok and not edge_ok(e):
+                    continue
+                nd = self._transfer_one(e, d)
+                if nd is None:
+                    continue
+                if e.dst in avoid and e.dst not in targets:
+                    continue
+                k2 = (e.dst, nd)
+                if k2 not in prev:
+                    prev[k2] = k
+                    dq.append(k2)
+        return None
 
     # -- queries ---------------------------------------------------------
     def at(self, nid):
